@@ -540,14 +540,40 @@ func ruleFunnelOnce(r *Run) {
 		r.Check("E5", "cmd.main:close-deferred", ok, main.Body.Pos(), "the connection closure defers the handler's Close before serving, so per-connection workers end with the connection")
 	}
 	if cl := r.modelFunc("websocket.(*handlerWithLogs).Close"); cl != nil {
-		fld := r.P.LookupField(pkgWS, "handlerWithLogs", "closeSummaryWorker")
+		// a stop action: the call of a function-typed field of the decorator (a context's cancel), or the closing
+		// of / a send on one of its channel fields (through sync.Once and glue, which the engine looks into)
 		ok := true
 		for _, path := range r.Paths(cl) {
 			r.at(&path)
 			c := false
 			for _, ev := range path.Events {
-				if ev.Kind == EvCall && ev.Callee == fld {
-					c = true
+				switch ev.Kind {
+				case EvCall:
+					if v, isVar := ev.Callee.(*types.Var); isVar && v.IsField() {
+						if _, isFn := v.Type().Underlying().(*types.Signature); isFn && ev.Call != nil && strings.HasPrefix(r.P.Canon(ev.Fn, ev.Call.Fun), "recv.") {
+							c = true
+						}
+					}
+					if b, isB := ev.Callee.(*types.Builtin); isB && b.Name() == "close" && ev.Call != nil && len(ev.Call.Args) == 1 && strings.HasPrefix(r.P.Canon(ev.Fn, ev.Call.Args[0]), "recv.") {
+						c = true
+					}
+					// once.Do(func(){ close(h.done) }): done now or done before
+					if f, isF := ev.Callee.(*types.Func); isF && f.FullName() == "(*sync.Once).Do" && ev.Call != nil && len(ev.Call.Args) == 1 {
+						if lit, isLit := ast.Unparen(ev.Call.Args[0]).(*ast.FuncLit); isLit {
+							ast.Inspect(lit.Body, func(nd ast.Node) bool {
+								if call, ok := nd.(*ast.CallExpr); ok {
+									if id, ok := ast.Unparen(call.Fun).(*ast.Ident); ok && id.Name == "close" && len(call.Args) == 1 {
+										c = true
+									}
+								}
+								return true
+							})
+						}
+					}
+				case EvChanOp:
+					if ev.Send && strings.HasPrefix(r.P.Canon(ev.Fn, ev.Chan), "recv.") {
+						c = true
+					}
 				}
 			}
 			if !c {
@@ -926,7 +952,7 @@ func ruleWaitFor(r *Run) {
 			r.Sample("F4 channel %s: %d send sites, consumers %v", name, len(ci.sends), cs)
 		}
 	}
-	r.Floor("F4", "channels with senders and consumers", nChans, 4)
+	r.Floor("F4", "channels with senders and consumers", nChans, 3)
 }
 
 // rulePanicContainment (G2): a deferred close of a channel that other goroutines send into must not
